@@ -132,6 +132,7 @@ type VC struct {
 	done       bool
 	retsP      *[]inlRet
 	splitOK    bool
+	rootOf     *VC
 	pending    []branchOut
 	workDir    string
 	nfeas      int
@@ -158,8 +159,38 @@ type loopInfo struct {
 	// roots[h] lists the allocations (outside the loop) through which h is written in the loop;
 	// present only if every write to h in the loop is rooted at such an allocation
 	roots map[string][]ssa.Instruction
+	bases map[string][]loopBase
+	loadBases map[string][]loopBase
 	wild  map[string]bool
 	ord   int
+}
+
+// isLoadFromOutside: v = *p with p fixed while the loop runs
+func isLoadFromOutside(v ssa.Value, body map[*ssa.BasicBlock]bool) bool {
+	u, ok := v.(*ssa.UnOp)
+	if !ok || u.Op != token.MUL {
+		return false
+	}
+	if _, isAlloc := u.X.(*ssa.Alloc); !isAlloc {
+		return false
+	}
+	return definedOutside(u.X, body)
+}
+
+type loopBase struct {
+	v       ssa.Value
+	isSlice bool
+}
+
+// definedOutside: the value cannot change while the loop runs (parameter, or defined in a block outside the body)
+func definedOutside(v ssa.Value, body map[*ssa.BasicBlock]bool) bool {
+	switch x := v.(type) {
+	case *ssa.Parameter, *ssa.FreeVar:
+		return true
+	case ssa.Instruction:
+		return !body[x.Block()]
+	}
+	return false
 }
 
 type TV struct {
@@ -172,6 +203,9 @@ type TV struct {
 func (vc *VC) r() *VC {
 	for vc.parent != nil {
 		vc = vc.parent
+	}
+	if vc.rootOf != nil {
+		return vc.rootOf // a continuation clone of the root frame writes to the original root
 	}
 	return vc
 }
@@ -660,7 +694,7 @@ func (vc *VC) findLoops() {
 		for _, p := range b.Preds {
 			if b.Dominates(p) {
 				if _, ok := vc.loops[b]; !ok {
-					vc.loops[b] = &loopInfo{header: b, body: map[*ssa.BasicBlock]bool{b: true}, mods: map[string]bool{}, roots: map[string][]ssa.Instruction{}, wild: map[string]bool{}}
+					vc.loops[b] = &loopInfo{header: b, body: map[*ssa.BasicBlock]bool{b: true}, mods: map[string]bool{}, roots: map[string][]ssa.Instruction{}, bases: map[string][]loopBase{}, loadBases: map[string][]loopBase{}, wild: map[string]bool{}}
 					headers = append(headers, b)
 				}
 				// natural loop: nodes reaching p without passing b
@@ -696,6 +730,12 @@ func (vc *VC) findLoops() {
 					li.mods[h] = true
 					if root != nil {
 						li.roots[h] = append(li.roots[h], root)
+					} else if base, isSlice := storeBase(ins); base != nil && definedOutside(base, li.body) {
+						// the written object is named by a value that does not change in the loop
+						li.bases[h] = append(li.bases[h], loopBase{base, isSlice})
+					} else if base != nil && isLoadFromOutside(base, li.body) {
+						// ... or is re-read in every iteration from a variable (checked below: the loop does not write it)
+						li.loadBases[h] = append(li.loadBases[h], loopBase{base, isSlice})
 					} else {
 						li.wild[h] = true
 					}
@@ -984,6 +1024,9 @@ func (vc *VC) cloneFrame() *VC {
 	c.st = vc.st.clone()
 	c.pending = nil
 	c.done = false
+	if vc.parent == nil {
+		c.rootOf = vc.r()
+	}
 	return &c
 }
 
@@ -1093,6 +1136,7 @@ func (vc *VC) loopHeader(b *ssa.BasicBlock, li *loopInfo, entryPreds []*ssa.Basi
 		vc.oblige(vc.invName(inv, li), "inv-init", fmt.Sprintf("loop %d invariant on entry: %s", li.ord, inv.Text), vc.evalGoal(env, inv.E, inv), inv)
 	}
 	// 2. havoc loop targets
+	loopEntry := vc.st.clone()
 	mods := make([]string, 0, len(li.mods))
 	for h := range li.mods {
 		mods = append(mods, h)
@@ -1110,9 +1154,39 @@ func (vc *VC) loopHeader(b *ssa.BasicBlock, li *loopInfo, entryPreds []*ssa.Basi
 		}
 		vc.havocH(vc.st, h)
 		// writes only through known local allocations: everything else is unchanged
-		if !li.wild[h] && len(li.roots[h]) > 0 && before != "" && strings.HasPrefix(vc.pre.heapSort[h], "(Array Int ") {
+		if !li.wild[h] && len(li.roots[h])+len(li.bases[h])+len(li.loadBases[h]) > 0 && before != "" && strings.HasPrefix(vc.pre.heapSort[h], "(Array Int ") {
 			var ne []string
 			okAll := true
+			for _, lb := range li.loadBases[h] {
+				// the variable read in the loop must not be written by the loop; its value is the one at loop entry
+				u := lb.v.(*ssa.UnOp)
+				written := false
+				for _, vh := range staticHeaps(u.X) {
+					if li.mods[vh] {
+						written = true
+					}
+				}
+				if written {
+					okAll = false
+					break
+				}
+				t := vc.load(vc.addrOf(u.X), loopEntry)
+				if lb.isSlice {
+					t = "(s_ref " + t + ")"
+				}
+				ne = append(ne, fmt.Sprintf("(not (= r %s))", t))
+			}
+			for _, lb := range li.bases[h] {
+				t, have := vc.vals[lb.v]
+				if _, isC := lb.v.(*ssa.Const); isC || !have {
+					okAll = false
+					break
+				}
+				if lb.isSlice {
+					t = "(s_ref " + t + ")"
+				}
+				ne = append(ne, fmt.Sprintf("(not (= r %s))", t))
+			}
 			for _, r := range li.roots[h] {
 				v, isVal := r.(ssa.Value)
 				if !isVal {
@@ -1999,7 +2073,7 @@ func (vc *VC) frameCheck(c *Contract) {
 		// freshly allocated objects may differ: only refs below the entry $next are compared
 		if strings.HasPrefix(s, "(Array Int ") {
 			vc.oblige("frame", "frame", "heap "+k+" unchanged on pre-existing objects (modifies clause)",
-				fmt.Sprintf("(forall ((r Int)) (! (=> (and (<= 0 r) (< r %s)) (= (select %s r) (select %s r))) :pattern ((select %s r))))", vc.getH(vc.entry, "$next", "Int"), cur, old, cur), nil)
+				fmt.Sprintf("(forall ((r Int)) (! (=> (and (< 0 r) (< r %s)) (= (select %s r) (select %s r))) :pattern ((select %s r))))", vc.getH(vc.entry, "$next", "Int"), cur, old, cur), nil)
 		} else {
 			vc.oblige("frame", "frame", "variable "+k+" unchanged (modifies clause)", fmt.Sprintf("(= %s %s)", cur, old), nil)
 		}
